@@ -46,68 +46,146 @@ func init() {
 			case *ast.CaseClause:
 				list = p.Body
 			}
-			var counter types.Object
-			bounded := false
-			for _, s := range list {
-				if s == ast.Stmt(br) {
-					break
-				}
+			// stepOf: h++ / h += k (k ≥ 1) count up (+1), h-- / h -= k count down (-1)
+			stepOf := func(s ast.Stmt) (types.Object, int) {
 				switch x := s.(type) {
 				case *ast.IncDecStmt:
-					if id, ok := unparen(x.X).(*ast.Ident); ok && x.Tok == token.INC {
-						counter = info.ObjectOf(id)
+					if id, ok := unparen(x.X).(*ast.Ident); ok {
+						if x.Tok == token.INC {
+							return info.ObjectOf(id), 1
+						}
+						return info.ObjectOf(id), -1
 					}
 				case *ast.AssignStmt:
-					if x.Tok == token.ADD_ASSIGN && len(x.Lhs) == 1 {
+					if (x.Tok == token.ADD_ASSIGN || x.Tok == token.SUB_ASSIGN) && len(x.Lhs) == 1 && len(x.Rhs) == 1 {
 						if id, ok := unparen(x.Lhs[0]).(*ast.Ident); ok {
 							if v, isC := constInt(info, x.Rhs[0]); isC && v >= 1 {
-								counter = info.ObjectOf(id)
+								if x.Tok == token.ADD_ASSIGN {
+									return info.ObjectOf(id), 1
+								}
+								return info.ObjectOf(id), -1
 							}
 						}
 					}
-				case *ast.IfStmt:
-					if counter == nil {
-						// `if h++; h > bound {` form
-						if inc, ok := x.Init.(*ast.IncDecStmt); ok && inc.Tok == token.INC {
-							if id, ok := unparen(inc.X).(*ast.Ident); ok {
-								counter = info.ObjectOf(id)
+				}
+				return nil, 0
+			}
+			// relOf: cond is `counter OP bound` (either operand order, bound not mentioning the counter);
+			// returns OP with the counter on the left
+			relOf := func(cond ast.Expr, counter types.Object) (token.Token, bool) {
+				be, ok := unparen(cond).(*ast.BinaryExpr)
+				if !ok {
+					return 0, false
+				}
+				l, r, op := be.X, be.Y, be.Op
+				if mentions(info, r, counter) && !mentions(info, l, counter) {
+					l, r = r, l
+					switch op {
+					case token.LSS:
+						op = token.GTR
+					case token.LEQ:
+						op = token.GEQ
+					case token.GTR:
+						op = token.LSS
+					case token.GEQ:
+						op = token.LEQ
+					}
+				}
+				if id, ok := unparen(l).(*ast.Ident); !ok || info.ObjectOf(id) != counter || mentions(info, r, counter) {
+					return 0, false
+				}
+				return op, true
+			}
+			errReturn := func(l []ast.Stmt) bool {
+				if len(l) == 0 {
+					return false
+				}
+				rs, ok := l[len(l)-1].(*ast.ReturnStmt)
+				if !ok || len(rs.Results) == 0 {
+					return false
+				}
+				id, isID := unparen(rs.Results[len(rs.Results)-1]).(*ast.Ident)
+				return !(isID && id.Name == "nil")
+			}
+			idx := -1
+			for i, s := range list {
+				if s == ast.Stmt(br) {
+					idx = i
+				}
+			}
+			var counter types.Object
+			dir := 0
+			bounded := false
+			if idx >= 0 {
+				// form A: step and `if counter beyond bound { return error }` (in either order) before the jump
+				for _, s := range list[:idx] {
+					if o, d := stepOf(s); o != nil && counter == nil {
+						counter, dir = o, d
+					}
+					if x, ok := s.(*ast.IfStmt); ok && counter == nil && x.Init != nil {
+						if o, d := stepOf(x.Init); o != nil { // `if h++; h > bound {`
+							counter, dir = o, d
+						}
+					}
+				}
+				if counter != nil {
+					for _, s := range list[:idx] {
+						x, ok := s.(*ast.IfStmt)
+						if !ok {
+							continue
+						}
+						op, ok := relOf(x.Cond, counter)
+						if !ok {
+							continue
+						}
+						beyond := (dir > 0 && (op == token.GTR || op == token.GEQ)) || (dir < 0 && (op == token.LSS || op == token.LEQ))
+						if beyond && errReturn(x.Body.List) {
+							bounded = true
+						}
+					}
+				}
+				// form B: the jump sits inside `if counter within bound { …; goto }` and what follows that
+				// `if` (or its else arm) returns the error
+				if !bounded && len(stack) >= 4 {
+					if ifs, ok := stack[len(stack)-3].(*ast.IfStmt); ok && stack[len(stack)-2] == ast.Node(ifs.Body) {
+						var outer []ast.Stmt
+						switch p := stack[len(stack)-4].(type) {
+						case *ast.BlockStmt:
+							outer = p.List
+						case *ast.CaseClause:
+							outer = p.Body
+						}
+						oi := -1
+						for i, s := range outer {
+							if s == ast.Stmt(ifs) {
+								oi = i
 							}
 						}
-					}
-					if counter == nil {
-						continue
-					}
-					if y, op, _, ok := cmpNorm(info, x.Cond); ok || true {
-						_ = y
-						_ = op
-					}
-					be, ok := unparen(x.Cond).(*ast.BinaryExpr)
-					if !ok {
-						continue
-					}
-					l, r, op := be.X, be.Y, be.Op
-					if mentions(info, r, counter) && !mentions(info, l, counter) {
-						l, r = r, l
-						switch op {
-						case token.LSS:
-							op = token.GTR
-						case token.LEQ:
-							op = token.GEQ
-						case token.GTR:
-							op = token.LSS
-						case token.GEQ:
-							op = token.LEQ
-						}
-					}
-					if id, ok := unparen(l).(*ast.Ident); !ok || info.ObjectOf(id) != counter || (op != token.GTR && op != token.GEQ) || mentions(info, r, counter) {
-						continue
-					}
-					// the true arm returns a non-nil error
-					if len(x.Body.List) > 0 {
-						if rs, ok := x.Body.List[len(x.Body.List)-1].(*ast.ReturnStmt); ok && len(rs.Results) > 0 {
-							last := unparen(rs.Results[len(rs.Results)-1])
-							if id, isNil := last.(*ast.Ident); !(isNil && id.Name == "nil") {
-								bounded = true
+						if oi >= 0 {
+							counter, dir = nil, 0
+							var steps []ast.Stmt
+							steps = append(steps, outer[:oi]...)
+							if ifs.Init != nil {
+								steps = append(steps, ifs.Init)
+							}
+							steps = append(steps, list[:idx]...)
+							for _, s := range steps {
+								if o, d := stepOf(s); o != nil {
+									if op, ok := relOf(ifs.Cond, o); ok {
+										within := (d > 0 && (op == token.LSS || op == token.LEQ)) || (d < 0 && (op == token.GTR || op == token.GEQ))
+										if within {
+											counter, dir = o, d
+										}
+									}
+								}
+							}
+							if counter != nil {
+								if el, isBlk := ifs.Else.(*ast.BlockStmt); isBlk && errReturn(el.List) {
+									bounded = true
+								}
+								if ifs.Else == nil && oi+1 < len(outer) && errReturn(outer[oi+1:oi+2]) {
+									bounded = true
+								}
 							}
 						}
 					}
@@ -117,24 +195,36 @@ func init() {
 				c.Viol("R24f", key, br.Pos(), "`goto %s` jumps back to re-scan the rewritten parameter with no budget: a flag table with an alias cycle ({\"-a\":\"-b\",\"-b\":\"-a\"}) makes ParseFlags (and so `args` and every builtin given such a table) loop for ever instead of reporting an error", br.Label.Name)
 				return true
 			}
-			// the counter is assigned nowhere else inside the labelled statement
+			// the counter moves only in its one direction inside the labelled statement
 			other := ""
 			ast.Inspect(ls, func(x ast.Node) bool {
+				if st, ok := x.(ast.Stmt); ok {
+					if o, d := stepOf(st); o == counter && o != nil {
+						if d != dir {
+							other = c.src(st)
+						}
+						return true
+					}
+				}
 				switch s := x.(type) {
 				case *ast.AssignStmt:
 					for _, l := range s.Lhs {
-						if id, ok := unparen(l).(*ast.Ident); ok && info.ObjectOf(id) == counter && s.Tok != token.ADD_ASSIGN {
+						if id, ok := unparen(l).(*ast.Ident); ok && info.ObjectOf(id) == counter {
 							other = c.src(s)
 						}
 					}
 				case *ast.IncDecStmt:
-					if id, ok := unparen(s.X).(*ast.Ident); ok && info.ObjectOf(id) == counter && s.Tok == token.DEC {
+					if id, ok := unparen(s.X).(*ast.Ident); ok && info.ObjectOf(id) == counter {
+						other = c.src(s)
+					}
+				case *ast.UnaryExpr:
+					if id, ok := unparen(s.X).(*ast.Ident); ok && s.Op == token.AND && info.ObjectOf(id) == counter {
 						other = c.src(s)
 					}
 				}
 				return true
 			})
-			c.Check(other == "", "R24f", key, br.Pos(), "`goto %s` is paid for from a finite budget: %s is incremented before the jump, tested against a bound with an error return, and not reset inside the labelled statement (found %q)", br.Label.Name, counter.Name(), other)
+			c.Check(other == "", "R24f", key, br.Pos(), "`goto %s` is paid for from a finite budget: %s is stepped before the jump, tested against a bound with an error return, and not reset inside the labelled statement (found %q)", br.Label.Name, counter.Name(), other)
 			return true
 		})
 		if n == 0 {
